@@ -106,6 +106,10 @@ func Run(c *hx.Ctx) {
 		switch c.Args[1] {
 		case "h2up":
 			h2upCases(c)
+		case "h2set":
+			h2setCases(c)
+		case "h2trail":
+			h2trailCases(c)
 		case "hpackx":
 			hpackxCases(c)
 		case "disp":
@@ -193,6 +197,13 @@ func Run(c *hx.Ctx) {
 			dec(proto, b, "random")
 		}
 	}
+	// [c08l9] tars: every length-prefix edge alone and in front of bytes (one Decode)
+	for _, v := range c08l9TarsLens {
+		pre := make([]byte, 4)
+		binary.BigEndian.PutUint32(pre, v)
+		dec("tars", pre, "tars-length")
+		dec("tars", append(append([]byte(nil), pre...), 0x10, 0x01, 0x2c, 0x3c), "tars-length+bytes")
+	}
 	// bolt frames carrying a malformed header block (the block is complete as far as the frame lengths go)
 	for i := 0; i < c.N(200, 3000); i++ {
 		v2 := c.Rng.Bool()
@@ -217,6 +228,8 @@ func Run(c *hx.Ctx) {
 	dispCases(c)
 	// the decode loops of the real HTTP/2 server / client Dispatch under a Decode-call recorder and a watchdog
 	h2dispCases(c)
+	// [c08l9] a second HEADERS frame (trailers) on a stream in flight: every short sequence by name, stream layer observed
+	h2trailCases(c)
 	// the HTTP/1 read path: real server / client stream connection (Dispatch pipe + serve goroutine) on malformed input
 	h1dispCases(c)
 	// dubbo service-aware metadata walk: hessian2 fields of unexpected types at each position
@@ -234,6 +247,8 @@ func Run(c *hx.Ctx) {
 	h2IndexFrames(c)
 	// upstream side: stream-error frames for an in-flight request on the real HTTP/2 client stream connection
 	h2upCases(c)
+	// [c08l9] upstream side: SETTINGS values at and outside every range edge, then a request with a large header block / body
+	h2setCases(c)
 	// the header block decoder alone
 	seenKv := map[string]bool{}
 	kv := func(b []byte, how string) {
